@@ -26,3 +26,8 @@ Proof. exact SnapshotFacts.C06_snapshot_false. Qed.
 
 Print Assumptions C06_snapshot.
 Print Assumptions C06_unbounded_refuted.
+
+(* non-vacuity (Proofs/ExampleFacts.v, by computation): a 23-event history (five reservations published out of order, one never published, an edit, a tick to pickup, a second run spawned because an item is still in flight) reaches a state whose snapshot counts 4 items and holds the matches (14,#4) (11,#1) (10,#0); the premises of C06_snapshot hold for it and the conclusion is instantiated *)
+From NV Require Proofs.ExampleFacts.
+Definition C06_nonvacuous := ExampleFacts.C06_nonvacuous.
+Print Assumptions C06_nonvacuous.
